@@ -199,6 +199,7 @@ func Run(c Case) *Obs {
 		wallCh = wt.C
 	}
 	wallHit := false
+	var blockedCh <-chan time.Time
 	var lastTicks int64 = -1
 	still := 0
 wait:
@@ -209,6 +210,12 @@ wait:
 		case <-wallCh:
 			wallHit = true
 			simrt.Abort() // the next Tick of any task now ends the run through hangCh
+			blockedCh = time.After(10 * time.Second)
+		case <-blockedCh:
+			// nobody reached a tick for ten seconds after the limit: the run is not computing, it is blocked outside
+			// simulated time - in a system call (a pipe nobody reads) or waiting for a child process
+			res = result{outcome: OutHang, diag: "blocked outside simulated time (system call / child process): no task reached a tick for 10 s after the real-time limit"}
+			break wait
 		case <-hangCh:
 			// some task exhausted the budget; give the main task a moment to unwind
 			select {
